@@ -152,7 +152,7 @@ namespace xsv
         cls |= fp_cls(exp);
         return model::numeq(got, exp) ? J_OK : J_FAIL;
     }
-    // fma family: fused or unfused reference; either zero sign when the accepted reference is an exact zero
+    // fma family: bit-identical to the fused or to the unfused reference (signed zeros included)
     template <class T>
     inline int fin_fma(T got, T fusedv, T unfusedv, unsigned& cls)
     {
@@ -160,8 +160,6 @@ namespace xsv
         if (!model::same(fusedv, unfusedv))
             cls |= CL_FUSEDIFF;
         if (model::same(got, fusedv) || model::same(got, unfusedv))
-            return J_OK;
-        if (got == 0 && (fusedv == 0 || unfusedv == 0))
             return J_OK;
         return J_FAIL;
     }
